@@ -462,14 +462,15 @@ def rt_case(kd, priv, kw, tape, acc, size=None):
         viol("export/raises-%s@%s" % (type(e).__name__, exc_site(e)), "raised %s: %s (documented: ValueError)"
              % (type(e).__name__, e))
         return "exc"
-    if exp["outcome"] == "refuse":
-        viol("export/documented-refusal-missing", "returned %s although the documentation says ValueError" % short(blob))
-        return "accepted!"
-    if exp["outcome"] == "unsupported":
+    if exp["outcome"] in ("refuse", "unsupported"):
+        # the property speaks about supported combinations only: an accepted combination that the documentation
+        # excludes (or promises to refuse) is logged, never judged
         acc.count("unsupported_accepted")
-        acc.observe("%s %s export_key(%s) is accepted although the documentation excludes the combination"
-                    % (t, "private" if priv else "public", ", ".join(sorted(kw))))
-        acc.seen("classes", tuple(cls + ["unsupported", "accepted"]))
+        acc.observe("%s %s export_key(%s) is accepted although the documentation %s"
+                    % (t, "private" if priv else "public", ", ".join("%s=%s" % (k, kw[k] if k in ("format", "pkcs", "pkcs8", "use_pkcs8") else "..")
+                                                                      for k in sorted(kw)),
+                       "promises ValueError" if exp["outcome"] == "refuse" else "excludes the combination"))
+        acc.seen("classes", tuple(cls + [exp["outcome"], "accepted"]))
         return "unsupported"
     container = exp["container"]
     pw = kw.get("passphrase")
@@ -620,7 +621,18 @@ def rt_case(kd, priv, kw, tape, acc, size=None):
             else:
                 acc.observe("a wrong passphrase survived the CBC padding check and decoded to another key (probability 2^-8..2^-16 event)")
     acc.seen("classes", tuple(cls + [res]))
+    if info is not None and res == "ok":
+        _LAST[0] = {"part": "rt", "key": KS.kd_id(kd, priv), "export_key": {k: (short(v, 20) if isinstance(v, (bytes, bytearray)) else v) for k, v in kw.items()},
+                    "output": short(text, 56), "independent_reader": {"structures": "/".join(info["chain"]), "pem_encrypted": peminfo["encrypted"],
+                                                                      "pbes2": ({k: (short(v) if isinstance(v, bytes) else v) for k, v in info["enc"].items() if k != "notes"}
+                                                                                if info.get("enc") else None)},
+                    "import_same_passphrase": "same components", "wrong_passphrases": "refused" if protected and pw else "n/a"}
     return res
+
+
+_LAST = [None]
+SAMPLE_FROM = {("rsa1024-e65537", True, 48), ("dsa1024-xsmall-y00", False, 0), ("p521-y00", True, 24), ("ed448-y00-xodd", True, 48),
+               ("curve25519-unclamped", False, 0)}
 
 
 def rt_worker(shard):
@@ -629,14 +641,13 @@ def rt_worker(shard):
     name, priv, level, lo, hi, kidx = shard
     kd = _KEYS[name]
     cfgs = cfgs_for(kd, priv, level)
-    last = None
+    _LAST[0] = None
     for i in range(lo, min(hi, len(cfgs))):
         kw = cfgs[i]
         tape = "%d|%s|%s|%d" % (SEED, name, "priv" if priv else "pub", i)
         rt_case(kd, priv, kw, tape, acc, size=1000 * kidx + i)
-        last = kw
-    acc.sample({"part": "rt", "key": KS.kd_id(kd, priv), "level": level, "configs": [lo, min(hi, len(cfgs))],
-                "last_config": {k: (short(v, 20) if isinstance(v, (bytes, bytearray)) else v) for k, v in (last or {}).items()}})
+    if (name, priv, lo) in SAMPLE_FROM and _LAST[0]:
+        acc.sample(_LAST[0])
     return acc
 
 
@@ -815,7 +826,9 @@ def eq_worker(shard):
                     (built[i] == other) if op == "==" else (built[i] != other)
                 except Exception as e:  # noqa
                     acc.observe("%s %s %s raises %s" % (type(built[i]).__name__, op, type(other).__name__, type(e).__name__))
-    acc.sample({"part": "eq", "rows": [_odesc(objs[i]) for i in rows][:4], "columns": n})
+    if rows and rows[0] == 0:
+        acc.sample({"part": "eq", "rows": [_odesc(objs[i]) for i in rows][:4], "columns": n,
+                    "row_0": {_odesc(objs[j]): [bool(built[0] == built[j]), bool(built[0] != built[j])] for j in range(0, 6) if built[j] is not None}})
     return acc
 
 
